@@ -29,14 +29,19 @@ def shards(tier, seed):
     for i in range(nparts):
         out.append({"kind": "all", "nmax": 4 if tier == "quick" else 5, "part": i, "nparts": nparts, "seed": seed, "shard": i})
     for i in range(8 if tier == "quick" else 16):
-        out.append({"kind": "random", "count": 10 if tier == "quick" else 160, "seed": seed, "shard": i})
+        out.append({"kind": "random", "count": 24 if tier == "quick" else 300, "seed": seed, "shard": i})
+    for i in range(8 if tier == "quick" else 16):
+        out.append({"kind": "dip", "count": 45 if tier == "quick" else 400, "seed": seed, "shard": i})
+    if tier == "thorough":
+        for i in range(64):
+            out.append({"kind": "all6", "part": i, "nparts": 64, "seed": seed, "shard": i})
     return out
 
 
 def floors(tier):
     return {"solver:runs": 120, "solver:returned": 80, "presentation:g": 30, "presentation:s": 30, "presentation:dm": 20,
             "circuits:with_reset_then_emission": 10, "generates:branches": 200, "generates:compiles": 400, "score:checked": 80,
-            "targets:n>=9": 5 if tier == "quick" else 100}
+            "targets:n>=9": 5 if tier == "quick" else 100, "targets:profile_dip_with_two_emitters": 200}
 
 
 def lattice(r, c):
@@ -66,6 +71,31 @@ def run_shard(spec, ctx):
     TableauMonitor(rep_t, ctx.count).install()
     DagMonitor(rep_d, ctx.count).install()
     rng = np.random.default_rng([spec["seed"], 2, spec["shard"], 0 if spec["kind"] == "all" else 1])
+    if spec["kind"] == "dip":
+        # many targets whose entanglement profile drops while two or more emitters are in use (selected with the oracle):
+        # the time-reversed measurement has to single one emitter out of a multi-emitter generator. Judged by the
+        # all-branch reference enumeration and the stabilizer backend.
+        rng = np.random.default_rng([spec["seed"], 2, spec["shard"], 5])
+        done = 0
+        while done < spec["count"]:
+            n = int(rng.integers(6, 9))
+            C = graphs.random_connected_graph(rng, n, [0.25, 0.4, 0.55][int(rng.integers(3))])
+            prof = graphs.cut_rank_profile(C)
+            if any(prof[j] < prof[j - 1] and prof[j - 1] >= 2 for j in range(1, n - 1)) and max(prof) <= 3:
+                ctx.count("targets:profile_dip_with_two_emitters")
+                solve_and_check(C, "g", rng, ctx, m, mon, state, light=True)
+                done += 1
+        return
+    if spec["kind"] == "all6":
+        j = 0
+        for code in range(1 << 15):
+            A6 = graphs.code_to_adj(code, 6)
+            if graphs.components(A6)[0] != 1:
+                continue
+            if j % spec["nparts"] == spec["part"]:
+                solve_and_check(A6, "g", rng, ctx, m, mon, state, light=True)
+            j += 1
+        return
     if spec["kind"] == "all":
         j = 0
         for n in range(1, spec["nmax"] + 1):
@@ -97,7 +127,18 @@ def run_shard(spec, ctx):
                     A[k, j] = A[j, k] = 1
             else:
                 A = graphs.random_connected_graph(rng, int(rng.integers(4, 8)), 0.6)
-            if i % 3 == 1:
+            if i % 8 in (0, 7):
+                # targets whose entanglement profile drops while two or more emitters are in use: the time-reversed
+                # measurement then has to single one emitter out of a multi-emitter generator (selected with the oracle)
+                for _ in range(300):
+                    n = int(rng.integers(6, 9))
+                    C = graphs.random_connected_graph(rng, n, [0.25, 0.4, 0.55][int(rng.integers(3))])
+                    prof = graphs.cut_rank_profile(C)
+                    if any(prof[j] < prof[j - 1] and prof[j - 1] >= 2 for j in range(1, n - 1)) and max(prof) <= 3:
+                        A = C
+                        ctx.count("targets:profile_dip_with_two_emitters")
+                        break
+            elif i % 3 == 1:
                 # disjoint union of connected pieces: the entanglement profile drops to 0 between them, so an emitter is
                 # measured, reset and used again
                 parts = [graphs.random_connected_graph(rng, int(rng.integers(2, 4)), 0.5) for _ in range(int(rng.integers(2, 4)))]
@@ -120,7 +161,8 @@ def replay(case, ctx):
     state = {"case": None}
     TableauMonitor(lambda k, d: ctx.violation("tableau:" + k, dict(state["case"] or {}), d, key=f"tableau:{k}:{d.get('function')}"), None).install()
     DagMonitor(lambda k, d: ctx.violation("dag:" + k, dict(state["case"] or {}), d, key=f"dag:{k}"), None).install()
-    solve_and_check(np.array(case["adj"]), case["presentation"], np.random.default_rng(case.get("rseed", 0)), ctx, m, mon, state, rseed=case.get("rseed"))
+    solve_and_check(np.array(case["adj"]), case["presentation"], np.random.default_rng(case.get("rseed", 0)), ctx, m, mon, state, rseed=case.get("rseed"),
+                    light=case.get("light", False))
 
 
 def make_target(A, rep, rng, m):
@@ -139,7 +181,7 @@ def make_target(A, rep, rng, m):
     return m["QuantumState"](gq.ptab_to_clifford(t, rng), rep_type="s")
 
 
-def solve_and_check(A, rep, rng, ctx, m, mon, state, rseed=None):
+def solve_and_check(A, rep, rng, ctx, m, mon, state, rseed=None, light=False):
     from graphiq.solvers.time_reversed_solver import TimeReversedSolver
     from graphiq.metrics import Infidelity
     import graphiq.circuit.ops as ops
@@ -147,7 +189,7 @@ def solve_and_check(A, rep, rng, ctx, m, mon, state, rseed=None):
     if rseed is None:
         rseed = int(rng.integers(2 ** 31))
     r2 = np.random.default_rng(rseed)
-    case = {"adj": A.tolist(), "presentation": rep, "rseed": rseed}
+    case = {"adj": A.tolist(), "presentation": rep, "rseed": rseed, "light": light}
     state["case"] = case
     isolated = bool((A.sum(axis=0) == 0).any())
     ctx.case((A.tobytes(), rep), bool(A.any()), {"target_adjacency": A.tolist(), "presentation": rep} if ctx.evaluations % 60 == 0 else None)
@@ -183,7 +225,8 @@ def solve_and_check(A, rep, rng, ctx, m, mon, state, rseed=None):
         elif type(op) is ops.CNOT and op.control_type == "e" and op.target_type == "p" and op.control in seen_mr:
             ctx.count("circuits:with_reset_then_emission")
             break
-    viol = generates.check(circ, target_group, m, mon, np_seed=rseed, count=ctx.count)
+    viol = generates.check(circ, target_group, m, mon, np_seed=rseed, count=ctx.count,
+                           backends=("StabilizerCompiler",) if light else ("StabilizerCompiler", "DensityMatrixCompiler"))
     for kind, detail in viol:
         ctx.violation(kind, case, detail, key=f"{kind}:{detail.get('backend', '')}")
     ctx.count("score:checked")
